@@ -23,7 +23,7 @@
 (* inner behaviour, outcome seen by the client / in the access log).       *)
 (*                                                                         *)
 (* The constants FIX_* select the repaired (TRUE) or the original (FALSE)  *)
-(* design for the four defects found with this model (see notes/C12.md,    *)
+(* design for the five defects found with this model (see notes/C12.md,    *)
 (* notes/C20.md): with any of them FALSE, TLC refutes an invariant.        *)
 (***************************************************************************)
 EXTENDS Naturals, Sequences, FiniteSets, TLC, Json
@@ -33,7 +33,8 @@ CONSTANTS Optional,      \* the optional wrappers configurations range over
           FIX_VISIBLE,   \* errors.go: `errors visible` does not write when status = 0
           FIX_TPL,       \* templates.go: a buffered response is passed on when the handler returned (0, err)
           FIX_LOGPANIC,  \* log.go: a panic unwinding through log is answered and logged by log
-          FIX_RECFIRST   \* recorder.go: ResponseRecorder keeps the status of the first WriteHeader (the one net/http sends)
+          FIX_RECFIRST,  \* recorder.go: ResponseRecorder keeps the status of the first WriteHeader (the one net/http sends)
+          FIX_GZONCE     \* gzip/responsefilter.go: the compress-or-not decision is made with the first header only
 
 Chain == << "server", "limits", "request_id", "log", "rewrite", "gzip", "header", "errors",
             "basicauth", "status", "mime", "internal", "templates", "probe" >>
@@ -110,11 +111,13 @@ WH(w, k, s) ==
            [] WLayers[k] = "log" ->
                 WH([w EXCEPT !.recSt = IF FIX_RECFIRST /\ w.recW THEN @ ELSE s, !.recW = TRUE], k - 1, s)
            [] WLayers[k] = "gzip" ->
-                \* every call re-evaluates the filters: SkipCompressedFilter says no once
-                \* Content-Encoding is set (also by this writer's first call)
-                LET comp == ~w.hdrCE IN
-                WH([w EXCEPT !.gzDecided = TRUE, !.gzComp = comp, !.gzHdrs = @ + 1,
-                             !.hdrCE = @ \/ comp], k - 1, s)
+                \* original: every call re-evaluates the filters, and SkipCompressedFilter says no once
+                \* Content-Encoding is set (also by this writer's own first call): the rest of the body
+                \* then goes out uncompressed.  Repaired: decided once, later calls are passed on
+                IF FIX_GZONCE /\ w.gzDecided THEN WH([w EXCEPT !.gzHdrs = @ + 1], k - 1, s)
+                ELSE LET comp == ~w.hdrCE IN
+                     WH([w EXCEPT !.gzDecided = TRUE, !.gzComp = comp, !.gzHdrs = @ + 1,
+                                  !.hdrCE = @ \/ comp], k - 1, s)
            [] WLayers[k] = "header" ->
                 IF w.hw THEN w ELSE WH([w EXCEPT !.hw = TRUE], k - 1, s)
            [] WLayers[k] = "internal" -> WH(w, k - 1, s)
